@@ -30,13 +30,13 @@ CFG = {
     "technique": "Coq proof (invariant over the writer's step function, induction over model lists) + vm_compute correspondence check",
     "design_ref": "DESIGN.md §4 C06, §5 entries 7, 8, 20",
     "n_quick": 220, "n_thorough": 2000,
-    "rule": "28 fixed scenes (empty, one triangle, unaligned second mesh, negative-only non-float32 coordinates, shared mesh "
+    "rule": "29 fixed scenes (empty, one triangle, unaligned second mesh, negative-only non-float32 coordinates, shared mesh "
             "pointer x material, materials equal by value / differing only in normal or occlusion texture, instances + TRS + "
-            "lights, JOINTS_0 bytes, refused alphaCutoff, 65535/65536/65537 vertices, NaN and -0, texture transform, LOD placements[:2] / placements / placements[2:] as views of one instance array, Position data of three meshes as prefix / window of one array with a shared index array and the same model value listed twice; six of the earlier scenes again through ONE Writer: WriteGLB + ToGLTF + WriteGLB again / two AddScene calls / AddScene + AddLight; identity node transforms, lights at the origin and at -0; image URIs differing only in case or directory with one texture in two slots; the transformed texture stored after the plain one it is de-duplicated onto; 1024 GPU instances), 4 (24) "
-            "big scenes with 65534..70001 vertices run-length encoded, 6 (26) medium scenes with 255..32768 vertices (powers of two and their neighbours), and the corpus scene of fix 31c30a5 (materials differing only in a texture's extension list), random scenes: 1-3 meshes (point/triangle, 0-12 "
+            "lights, JOINTS_0 bytes, refused alphaCutoff, 65535/65536/65537 vertices, NaN and -0, texture transform, LOD placements[:2] / placements / placements[2:] as views of one instance array, Position data of three meshes as prefix / window of one array with a shared index array and the same model value listed twice; six of the earlier scenes again through ONE Writer: WriteGLB + ToGLTF + WriteGLB again / two AddScene calls / AddScene + AddLight; identity node transforms, lights at the origin and at -0; image URIs differing only in case or directory with one texture in two slots; the transformed texture stored after the plain one it is de-duplicated onto; 1024 GPU instances; five materials differing only in their extras), 4 (24) "
+            "big scenes with 65534..70001 vertices run-length encoded, 6 (26) medium scenes with 255..32768 vertices (powers of two and their neighbours), and the corpus scenes of fix 31c30a5 (materials differing only in a texture's extension list) and of fix fd7cca0 (materials differing only in their extras), random scenes: 1-3 meshes (point/triangle, 0-12 "
             "vertices, attribute mix of Position/Normal/TexCoord/Color/Joint/Weight/custom, value modes mixed / negative only / "
             "tenths / constant / NaN,-0 / float32 edge values: denormals, below the smallest denormal (rounds to +-0), near MaxFloat32, 2^24+1), 0-4 textures over 6 URIs (two differ only in case / directory) and 0-2 samplers, 0-3 material extensions, 0-4 materials "
-            "half of them by-value copies with at most one field changed, 1-6 models with repeated mesh pointers, optional "
+            "half of them by-value copies with at most one field changed (incl. the extras: none / empty map / {id: k} under a fresh map), 1-6 models with repeated mesh pointers, optional "
             "TRS (1/6 identity, 1/6 -0 / float64 denormal / 1e308), 0-3 GPU instances (1/3 with edge values / NaN translation), 0-2 lights (1/6 at the origin); 3/10 of the scenes are written through ONE Writer (reuse: the second GLB and the text written between the two GLBs are judged, and both GLBs must agree; split: two AddScene calls; addlight: AddScene then AddLight); in 2/3 of the scenes slice-typed inputs are ALIASED: GPU-instance lists, attribute data and index lists become prefix / suffix / window / whole / identical views of shared backing arrays (or equal-by-value private copies), and a model value may be listed twice (the model and the oracles always get the by-value scene); each through WriteBinary and WriteText; plus a byte-for-byte GLB case for "
             "small scenes and an alignment-only case per document; distinct by description; non-trivial = at least one "
             "model with a primitive",
@@ -49,8 +49,8 @@ CFG = {
     "modelled": ["float64 -> float32 conversion is performed by Go and passed to the model as bit patterns",
                  "colour rounding roundFloat(c/65535, 3) is modelled in integers (thousandths)",
                  "pointer identity of meshes / materials / textures is an abstract id supplied by the harness",
-                 "skins and animations are outside the property's quantifier and outside the model; material Extras, "
-                 "the content of material-extension / light objects beyond ids, texture slots, colour, range, intensity, and "
+                 "skins and animations are outside the property's quantifier and outside the model; material Extras are "
+                 "an equality class (deep equality) supplied by the harness; the content of material-extension / light objects beyond ids, texture slots, colour, range, intensity, and "
                  "line / quad topologies are not modelled (notes/C06.md, round 4 coverage audit)"],
 }
 
